@@ -357,6 +357,9 @@ def r_validator_visits_every_file(r, prog):
         r.finding('validator-does-not-walk-the-file-list', f.span, 'validate_ast calls visit_with on %s: files reached through another collection can be merged, dropped or reordered' % (recv[:80] or 'nothing'))
     r.floor(1)
 
+import decisions
+
+
 def run(ctx):
     prog = ctx.prog
     ctx.run_rule('C20.1', 'T6', 'each visit_with calls exactly its own callback once, first', r_callbacks, prog)
@@ -365,4 +368,5 @@ def run(ctx):
     ctx.run_rule('C20.4', 'T2', 'type references: not descended when unpatched; nested types by direct recursion', r_typeref, prog)
     ctx.run_rule('C20.5', 'T4', 'file: file, module, every definition dispatched to its own visit_with', r_file, prog)
     ctx.run_rule('C20.6', 'T5', 'the validator overrides every Visitor method', r_validator_overrides_all, prog)
+    ctx.run_rule('C20.6', 'T2', 'the validating walk presents every file', decisions.r_every_file_validated, prog)
     ctx.run_rule('C20.7', 'T10', 'the validators visit every file of the file list', r_validator_visits_every_file, prog)
